@@ -43,6 +43,8 @@ structure Run17 where
   bad    : Option String
   oracle : Bool
   log    : List Json
+  addedT : List Nat := []
+  addedX : List Nat := []
 
 def note (r : Run17) (k : Nat) (what : String) : Run17 :=
   match r.bad with
@@ -57,19 +59,18 @@ def stepEvent (r : Run17) (k : Nat) (e : Json) (tlo thi : List Rat) (xlo xhi : L
   let c := r.g.cfg
   let i ← getNat e "i"
   let stepped ← getBool e "stepped"
+  -- `light`: a step of jinns.solve, the stores and probabilities are not observable at that moment
+  let light := (← getOpt e "light" (·.getBool?)).getD false
   let storeT ← getNatListD e "storeT"
   let storeX ← getNatListD e "storeX"
   let pT ← getBoolListD e "pT"
   let pX ← getBoolListD e "pX"
-  let iterNb ← getNat e "iterNb"
-  let fromLast ← getNat e "fromLast"
   let candT ← getRatMatD e "candT"
   let candX ← getRatMatD e "candX"
   let candTLab ← getNatListD e "candTLab"
   let candXLab ← getNatListD e "candXLab"
   let idxT ← getNatListD e "idxT"
   let idxX ← getNatListD e "idxX"
-  -- the model's own decision and choice
   let ptsT := idxT.map (fun a => candTLab.getD a 0)
   let ptsX := idxX.map (fun a => candXLab.getD a 0)
   let nEffT := r.g.t.nEff
@@ -79,16 +80,12 @@ def stepEvent (r : Run17) (k : Nat) (e : Json) (tlo thi : List Rat) (xlo xhi : L
   if mStepped != stepped then r := note r k s!"model stepped={mStepped}, implementation stepped={stepped}"
   if stepped then
     let inDom := (!c.kind.hasT || inBox candT tlo thi) && (!c.kind.hasX || inBox candX xlo xhi)
-    let sideT : Side17 := { sel := c.selT, candLab := candTLab, chosen := idxT, storeB := r.storeT,
-                            storeA := storeT, maskB := r.pT, maskA := pT }
-    let sideX : Side17 := { sel := c.selX, candLab := candXLab, chosen := idxX, storeB := r.storeX,
-                            storeA := storeX, maskB := r.pX, maskA := pX }
     match c.kind with
     | .nonstatio =>
       let rep ← getRatMat e "mse"
       let ex ← getRatMat e "exact"
       let nX := candXLab.length
-      r := { r with evs := r.evs ++ [Ev17.step2 inDom rep ex nX sideT sideX] }
+      r := { r with evs := r.evs ++ [Ev17.choice2 inDom rep ex nX c.selT c.selX idxT idxX] }
       let (mT, mX) := topPairs rep nX c.selT c.selX
       let val (ti xi : List Nat) (q : Nat) : Rat := (rep.getD (ti.getD q 0) []).getD (xi.getD q 0) 0
       let common := List.range (min c.selT c.selX)
@@ -98,12 +95,23 @@ def stepEvent (r : Run17) (k : Nat) (e : Json) (tlo thi : List Rat) (xlo xhi : L
     | _ =>
       let rep ← getRatList e "mse"
       let ex ← getRatList e "exact"
-      let side := if c.kind.hasT then sideT else sideX
-      r := { r with evs := r.evs ++ [Ev17.step1 inDom rep ex side] }
-      let m := selectTop side.sel rep
-      if sortRat (m.map (fun a => rep.getD a 0)) != sortRat (side.chosen.map (fun a => rep.getD a 0)) then
-        r := note r k s!"model choice {m} has other residuals than the implementation's {side.chosen}"
+      let sel := if c.kind.hasT then c.selT else c.selX
+      let chosen := if c.kind.hasT then idxT else idxX
+      r := { r with evs := r.evs ++ [Ev17.choice1 inDom rep ex sel chosen] }
+      let m := selectTop sel rep
+      if sortRat (m.map (fun a => rep.getD a 0)) != sortRat (chosen.map (fun a => rep.getD a 0)) then
+        r := note r k s!"model choice {m} has other residuals than the implementation's {chosen}"
       r := { r with log := r.log ++ [Json.mkObj [("event", Json.num (k : Nat)), ("model_idx", jNats m)]] }
+    r := { r with addedT := r.addedT ++ ptsT, addedX := r.addedX ++ ptsX }
+  if light then
+    return { r with g := g' }
+  if stepped then
+    let sideT : Side17 := { sel := c.selT, candLab := candTLab, chosen := idxT, storeB := r.storeT,
+                            storeA := storeT, maskB := r.pT, maskA := pT }
+    let sideX : Side17 := { sel := c.selX, candLab := candXLab, chosen := idxX, storeB := r.storeX,
+                            storeA := storeX, maskB := r.pX, maskA := pX }
+    r := { r with evs := r.evs ++ [Ev17.stores ((if c.kind.hasT then [("times", sideT)] else []) ++
+                                                 (if c.kind.hasX then [("omega", sideX)] else []))] }
     -- stores: previously active slots in place, new slots hold the chosen points
     if c.kind.hasT then
       if seg g'.t.store 0 nEffT != seg storeT 0 nEffT then r := note r k "time store: an active slot differs from the model"
@@ -116,6 +124,8 @@ def stepEvent (r : Run17) (k : Nat) (e : Json) (tlo thi : List Rat) (xlo xhi : L
   else
     if c.kind.hasT && storeT != r.storeT then r := note r k "time store changed without a step"
     if c.kind.hasX && storeX != r.storeX then r := note r k "space store changed without a step"
+  let iterNb ← getNat e "iterNb"
+  let fromLast ← getNat e "fromLast"
   if g'.st.steps != iterNb then r := note r k s!"rar_iter_nb: model {g'.st.steps}, implementation {iterNb}"
   if g'.st.fromLast != fromLast then r := note r k s!"rar_iter_from_last_sampling: model {g'.st.fromLast}, implementation {fromLast}"
   if c.kind.hasT && g'.st.pT != pT then r := note r k "p_times non-zero pattern differs from the model"
@@ -124,6 +134,26 @@ def stepEvent (r : Run17) (k : Nat) (e : Json) (tlo thi : List Rat) (xlo xhi : L
   let g'' : Gen := { g' with t := { g'.t with store := if c.kind.hasT then storeT else g'.t.store },
                              x := { g'.x with store := if c.kind.hasX then storeX else g'.x.store } }
   pure { r with g := g'', storeT := storeT, storeX := storeX, pT := pT, pX := pX }
+
+/-- end of a `jinns.solve` run: final stores / probabilities / counters -/
+def finalEvent (r : Run17) (k : Nat) (e : Json) (storeT0 storeX0 : List Nat) (pT0 pX0 : List Bool) :
+    Except String Run17 := do
+  let c := r.g.cfg
+  let storeT ← getNatListD e "storeT"
+  let storeX ← getNatListD e "storeX"
+  let pT ← getBoolListD e "pT"
+  let pX ← getBoolListD e "pX"
+  let iterNb ← getNat e "iterNb"
+  let fromLast ← getNat e "fromLast"
+  let mut r := r
+  r := { r with evs := r.evs ++
+    (if c.kind.hasT then [Ev17.summary "times" (maskedPts storeT0 pT0) (maskedPts storeT pT) r.addedT] else []) ++
+    (if c.kind.hasX then [Ev17.summary "omega" (maskedPts storeX0 pX0) (maskedPts storeX pX) r.addedX] else []) }
+  if r.g.st.steps != iterNb then r := note r k s!"rar_iter_nb: model {r.g.st.steps}, implementation {iterNb}"
+  if r.g.st.fromLast != fromLast then r := note r k s!"rar_iter_from_last_sampling: model {r.g.st.fromLast}, implementation {fromLast}"
+  if c.kind.hasT && r.g.st.pT != pT then r := note r k "p_times non-zero pattern differs from the model"
+  if c.kind.hasX && r.g.st.pX != pX then r := note r k "p_omega non-zero pattern differs from the model"
+  pure r
 
 def drawEvent (r : Run17) (k : Nat) (e : Json) : Except String Run17 := do
   let c := r.g.cfg
@@ -156,8 +186,9 @@ def drawEvent (r : Run17) (k : Nat) (e : Json) : Except String Run17 := do
 
 /-- request: {cfg, bT, bX, storeT0, storeX0, pT0, pX0, tlo, thi, xlo, xhi,
               events:[{ev:"draw", storeT, storeX, batchT, batchX, resetT?, resetX?} |
-                      {ev:"trigger", i, stepped, storeT, storeX, pT, pX, iterNb, fromLast,
-                       candT, candX, candTLab, candXLab, mse, exact, idxT, idxX}]}
+                      {ev:"trigger", i, stepped, light?, storeT, storeX, pT, pX, iterNb, fromLast,
+                       candT, candX, candTLab, candXLab, mse, exact, idxT, idxX} |
+                      {ev:"final", storeT, storeX, pT, pX, iterNb, fromLast}]}
     Labels: naturals identifying points.  The model replays the history with the observed
     reshuffles / candidates / chosen indices as oracles; `Holds.C17` is evaluated on the observed
     history. -/
@@ -184,6 +215,7 @@ def handleC17 (j : Json) : Except String Json := do
     match (← getStr e "ev") with
     | "draw" => r ← drawEvent r k e
     | "trigger" => r ← stepEvent r k e tlo thi xlo xhi
+    | "final" => r ← finalEvent r k e storeT0 storeX0 pT0 pX0
     | s => throw s!"unknown event {s}"
     k := k + 1
   let holds := holdsC17 r.evs
